@@ -88,7 +88,7 @@ def project(acts, unit, consts, run_id, tag, prefix=None):
             d, act = n.split('-')
             if d == 'c2g' and act == 'deliver' and a['svc'] == 'ConnReq':
                 steps.append(dict(op='gwpolicy', s='nextchan', n=a['gwch'] if a['gwch'] > 0 else 1))
-            st = dict(op='net', dir=d, act=act, svc=a['svc'], i=0)
+            st = dict(op='net', dir=d, act=act, svc=a['svc'], i=0, exact=True)
             if a['svc'] in ('TunnelReq', 'TunnelRes') and a['seq'] >= 0:
                 st.update(q=a['seq'] + 1, mod=consts.get('M', 4))
             if a['st'] >= 0:
